@@ -166,8 +166,75 @@ pub fn dap_check(prop: &str, tier: &str) -> i32 {
     orch::run_check(cfg, ws, corpus_info)
 }
 
+pub fn layer_b_check(prop: &str, tier: &str) -> i32 {
+    let seed = seed_from_env();
+    let histories = if tier == "quick" { 40 } else { 400 };
+    let histories = std::env::var("BSSIM_HISTORIES").ok().and_then(|s| s.parse().ok()).unwrap_or(histories);
+    // one interpreter per (toolchain, opt-level)
+    let mut specs = vec![];
+    for tc in ["1.89", "stable", "nightly"] {
+        for opt in [0u8, 1] {
+            let mut p = crate::mtprog::mt_program(&mut Tape::record(1));
+            p.toolchain = tc.into();
+            p.opt_level = opt;
+            specs.push(p);
+        }
+    }
+    let corpus = orch::build_corpus(specs, false);
+    if corpus.progs.is_empty() {
+        eprintln!("HARNESS-ERROR empty corpus");
+        return 2;
+    }
+    let corpus_info = json!({"family": "mt (gated interpreter debuggee, one binary per toolchain/opt-level)", "programs": corpus.progs.len(), "rejected": corpus.rejected});
+    let dir = scratch_dir(prop);
+    let mut ws = vec![];
+    let mut idx = 0u64;
+    let mut params: BTreeMap<String, Value> = BTreeMap::new();
+    params.insert("max_ops".into(), json!(if tier == "quick" { 40 } else { 60 }));
+    params.insert("max_threads".into(), json!(if tier == "quick" { 8 } else { 24 }));
+    for (p, b) in &corpus.progs {
+        for _ in 0..histories {
+            ws.push(WorkerSpec { property: prop.into(), mode: "layer_b".into(), seed: rng::derive(seed, prop, idx), run_idx: idx, program: p.clone(), bin: b.bin.to_string_lossy().into(), src_file: b.src_file.clone(), tape: None, out: dir.join(format!("r{idx}.json")).to_string_lossy().into(), params: params.clone() });
+            idx += 1;
+        }
+    }
+    let (rule, probes): (&str, Vec<&str>) = match prop {
+        "C09" => ("one case = one (thread scripts for up to N gated debuggee threads, user history of arm/disarm/continue/stepi/watch, schedule of advance/deliver/race/signal decisions from the run's tape); at every reported stop every live task must be in a ptrace stop and equal thread_state(), every scripted arrival at an armed site must be reported exactly once for the arriving thread, and at exit the non-idempotent site counters must equal the scripted executions; distinct = distinct canonical decision+event log; non-trivial = at least 3 operations", vec!["c09.stops_checked", "c09.arrivals", "c09.breakpoint_reports", "c09.sibling_advanced_during_group_stop", "c09.deliver_choice_among_several", "c09.spawns", "c09.thread_exits", "c09.completed_runs"]),
+        _ => ("one case = one (thread scripts with self-raised signals, external signals sent by the simulator to running and to stopped threads at seam decision points incl. right before single steps, user history); sent = handled (per-signal handler counters, SIGINT never handled) = reported (one stop per non-quiet signal naming the receiving thread, none for quiet ones); distinct = distinct canonical decision+event log; non-trivial = at least 3 operations", vec!["c10.signals_sent", "c10.signal_reports", "c10.sent_to_running_thread", "c10.sent_to_stopped_thread", "c10.self_raised", "c10.injections_seen", "c09.completed_runs"]),
+    };
+    let cfg = CheckCfg {
+        prop: prop.into(),
+        tier: tier.into(),
+        seed,
+        mode: "layer_b".into(),
+        programs: corpus.progs.len(),
+        histories,
+        det_pairs: if tier == "quick" { 24 } else { 96 },
+        timeout: Duration::from_secs(90),
+        params,
+        level: "exploration".into(),
+        rule: rule.into(),
+        assumptions: vec![
+            "debuggee threads block only at gates (futex on a shared control block); quiescence (every task in a ptrace stop, dead, or asleep at its gate with no interrupt or signal in flight) is reached before every decision, so the set of pending events is a function of the history".into(),
+            "the kernel may deliver pending wait events of different tasks in any order; waitpid(-1) is realised as wait4(chosen tid)".into(),
+            "PID namespace + getrandom seam make pids and HashMap orders a function of the history".into(),
+            "hardware watchpoints never fire on this host: only the register image is checked (C14)".into(),
+        ],
+        real_stub: json!({
+            "real": ["bugstalker::debugger (tracer, group stop, breakpoints, signal queue)", "Linux kernel ptrace/wait/signals/clone/exit (behind the libc seam)", "debuggee threads (real pthreads, real INT3 traps, real signals)"],
+            "simulated": ["thread scheduler (gates released one at a time by the tape)", "event arbitration of waitpid(-1)", "signal sender", "user history"],
+            "pinned": ["pids/tids (PID namespace)", "HashMap seeds (getrandom)", "environment"],
+            "stub": ["none of the debugger; the debuggee is an interpreter of scripted actions, not an arbitrary program"]
+        }),
+        required_probes: probes.into_iter().map(String::from).collect(),
+        budget: Duration::from_secs(600),
+    };
+    orch::run_check(cfg, ws, corpus_info)
+}
+
 pub fn check(prop: &str, tier: &str) -> i32 {
     match prop {
+        "C09" | "C10" => layer_b_check(prop, tier),
         "C01" | "C02" | "C03" | "C05" | "C11" | "C14" | "C15" | "C16" => layer_a_check(prop, tier),
         "C12" => dap_check(prop, tier),
         _ => {
